@@ -231,6 +231,10 @@ class Env(object):
         return self._i.lookup(k, self._fr)
 
 
+_ORDER_SENSITIVE = (builtins.list, builtins.tuple, builtins.enumerate, builtins.zip, builtins.iter, builtins.map,
+                    builtins.filter, builtins.sorted, builtins.next, dict.fromkeys)
+
+
 class Interp(object):
     def __init__(self, ctx, prefixes=('spyne',)):
         self.ctx = ctx                     # pyvc.path.Path
@@ -251,6 +255,9 @@ class Interp(object):
         self.store_hook = None             # frame checks: hook(kind, obj, name_or_key, value)
         self.steps = 0
         self.max_steps = 2000000
+        self.info_stack = []
+        self.iter_hook = None              # hook(obj, FuncInfo): every iteration started by interpreted code
+        self.set_order = None              # None | 'sorted' | 'reversed' | 'rotated': adversarial set iteration order
 
     # ------------------------------------------------------------------ source access
     _src_cache = {}
@@ -719,14 +726,29 @@ class Interp(object):
         del obj[idx]
 
     def iterate(self, obj):
+        if self.iter_hook is not None:
+            self.iter_hook(obj, self.info_stack[-1] if self.info_stack else None)
         if isinstance(obj, Sym):
             raise Unsupported("iteration over symbolic %r" % (obj,))
         if isinstance(obj, SymSeq):
             raise Unsupported("iteration over a symbolic sequence without a loop annotation")
+        if self.set_order is not None and type(obj) in (set, frozenset):
+            return iter(self.ordered_set(obj))
         d = self.dunder(obj, '__iter__')
         if d is not None:
             return iter(self.call(d, (obj,), {}))
         return iter(obj)
+
+    def ordered_set(self, obj):
+        """The elements of a set in the order the current adversary (set_order) picks: a set's iteration order is
+        unspecified, so any order is a legal execution."""
+        items = sorted(obj, key=lambda x: (type(x).__name__, repr(x)))
+        if self.set_order == 'reversed':
+            items.reverse()
+        elif self.set_order == 'rotated':
+            h = (len(items) + 1) // 2
+            items = items[h:] + items[:h]
+        return items
 
     # ------------------------------------------------------------------ calls
     def call(self, fn, args, kwargs):
@@ -858,8 +880,17 @@ class Interp(object):
         m = BUILTIN_MODELS.get(fn)
         if m is not None and getattr(m, 'always', False):
             return m(self, *args, **kwargs)
+        if self.iter_hook is not None and args and type(args[-1]) in (set, frozenset) and fn is not builtins.sorted \
+                and fn not in (builtins.len, builtins.isinstance, builtins.id, builtins.repr, builtins.bool, builtins.set,
+                               builtins.frozenset, builtins.min, builtins.max, builtins.sum, builtins.any, builtins.all):
+            self.iter_hook(args[-1], self.info_stack[-1] if self.info_stack else None)
+        if self.iter_hook is not None and fn is builtins.sorted and args and kwargs.get('key') is not None:
+            self.iter_hook(('sorted', args[0], kwargs['key']), self.info_stack[-1] if self.info_stack else None)
         if fn is builtins.super and not args:
             raise Unsupported("zero-argument super() outside a frame")
+        if self.set_order is not None and (fn in _ORDER_SENSITIVE or getattr(fn, '__name__', '') in ('join', 'extend',
+                                                                                                    'from_iterable')):
+            args = tuple(self.ordered_set(a) if type(a) in (set, frozenset) else a for a in args)
         return fn(*args, **kwargs)
 
     def bind(self, node_args, defaults, kwdefaults, args, kwargs, name):
@@ -951,6 +982,7 @@ class Interp(object):
         if self.depth > self.max_depth:
             self.depth -= 1
             raise Unsupported("interpreter recursion limit")
+        self.info_stack.append(fr.info)
         try:
             if isinstance(node, ast.Lambda):
                 return self.eval(node.body, fr)
@@ -961,6 +993,7 @@ class Interp(object):
             return None
         finally:
             self.depth -= 1
+            self.info_stack.pop()
 
     # ------------------------------------------------------------------ statements
     def exec_block(self, stmts, fr):
